@@ -27,6 +27,8 @@ import (
 	"github.com/lindb/lindb/query"
 	stagepkg "github.com/lindb/lindb/query/stage"
 	"github.com/lindb/lindb/rpc"
+	"github.com/lindb/lindb/series/metric"
+	"github.com/lindb/lindb/sql"
 	"github.com/lindb/lindb/sql/stmt"
 	"github.com/lindb/lindb/tsdb"
 
@@ -49,6 +51,11 @@ func answer(prefix string) ([]string, error) {
 	return []string{prefix + "-1", prefix + "-2"}, nil
 }
 func (m *leafMetaDB) SuggestNamespace(prefix string, _ int) ([]string, error) { return answer(prefix) }
+
+// the metadata lookup of a data query: the metric index cannot be read
+func (m *leafMetaDB) GetMetricID(_, _ string) (metric.ID, error) {
+	return 0, errors.New("read metric index: input/output error")
+}
 func (m *leafMetaDB) SuggestMetrics(_, prefix string, _ int) ([]string, error) {
 	return answer(prefix)
 }
@@ -102,14 +109,15 @@ func (s *leafStream) Recv() (*protoCommonV1.TaskRequest, error) {
 }
 
 // request kinds: 0 ok, 1 stage error, 2 not found, 3 wrapped not found, 4 stage panic,
-// 5 unknown database, 6 node is not a target, 7 plan not decodable, 8 payload not decodable
+// 5 unknown database, 6 node is not a target, 7 plan not decodable, 8 payload not decodable,
+// 9 a data query whose metadata lookup fails, 10 the same with explain
 type leafReq struct {
 	Kind   int    `json:"kind"`
 	Metric bool   `json:"metric_suggest"` // false: namespace suggest
 	Resp   []bool `json:"responses_without_error"`
 }
 
-var leafKinds = []string{"ok", "fail", "nf", "wnf", "panic", "unknown-db", "not-a-target", "bad-plan", "bad-payload"}
+var leafKinds = []string{"ok", "fail", "nf", "wnf", "panic", "unknown-db", "not-a-target", "bad-plan", "bad-payload", "data-fail", "data-fail-explain"}
 
 func (q *leafReq) fate() string {
 	switch q.Kind {
@@ -121,6 +129,8 @@ func (q *leafReq) fate() string {
 		return "(Piped (Stage NotFoundPlain false []) true)"
 	case 4:
 		return "(Piped (Stage Panic false []) false)"
+	case 9, 10:
+		return "(Piped (Stage Err false []) false)"
 	}
 	return "Refused"
 }
@@ -174,8 +184,21 @@ func leafRequests(out *vh.Out, r *vh.Rand, rounds int) {
 			case 8:
 				payload = []byte("{not json")
 			}
+			reqType := protoCommonV1.RequestType_Metadata
+			if q.Kind >= 9 {
+				text := "select f from cpu where time>='2023-06-15 10:00:00' and time<='2023-06-15 10:06:40'"
+				if q.Kind == 10 {
+					text = "explain " + text
+				}
+				st, perr := sql.Parse(text)
+				if perr != nil {
+					panic(perr)
+				}
+				payload, _ = st.(*stmt.Query).MarshalJSON()
+				reqType = protoCommonV1.RequestType_Data
+			}
 			stream.requests = append(stream.requests, &protoCommonV1.TaskRequest{
-				RequestID: fmt.Sprintf("r%d-%d", round, i), RequestType: protoCommonV1.RequestType_Metadata,
+				RequestID: fmt.Sprintf("r%d-%d", round, i), RequestType: reqType,
 				PhysicalPlan: planBytes, Payload: payload})
 		}
 		done := make(chan error, 1)
@@ -204,7 +227,7 @@ func leafRequests(out *vh.Out, r *vh.Rand, rounds int) {
 		}
 		stream.mu.Unlock()
 		for i, q := range reqs {
-			idx := out.Case(map[string]interface{}{"kind": "leaf-request", "round": round, "position": i, "workers": workers, "request": q, "request_kind": leafKinds[q.Kind]}, q.Kind >= 1 && q.Kind <= 4)
+			idx := out.Case(map[string]interface{}{"kind": "leaf-request", "round": round, "position": i, "workers": workers, "request": q, "request_kind": leafKinds[q.Kind]}, (q.Kind >= 1 && q.Kind <= 4) || q.Kind >= 9)
 			out.Count("leaf-request:" + leafKinds[q.Kind])
 			if hang {
 				out.Violation(idx, "handler-stopped-reading", "the task handler did not read every request", nil)
